@@ -294,6 +294,11 @@ pub fn snapshot_of<E: Elem, Tr: ?Sized + TrSet, M: MemB>(v: &AnyVec<Tr, M>) -> S
     }
     s.storage_addr = base as usize;
     s.aligned = (base as usize) % std::mem::align_of::<E>() == 0;
+    if !s.aligned {
+        // never form typed references to misaligned storage (this is finding D10; typed access
+        // to misaligned over-aligned data faults on x86)
+        return s;
+    }
     if !s.len_le_cap {
         // do not touch the storage of a vector that claims more elements than it has room for
         return s;
@@ -1106,6 +1111,8 @@ where
     b: Option<Placed<AnyVec<Tr, MB>>>,
     pool: Vec<E>,
     diag: String,
+    /// slots whose inline storage was observed misaligned: never touched through typed code again
+    bad: [bool; 3],
     free_place: bool,
     poison: bool,
     _m: PhantomData<E>,
@@ -1216,7 +1223,7 @@ where
     Twin<E>: SatisfyTraits<Tr>,
 {
     pub fn new(id: u32) -> Self {
-        World { id, a0: None, a1: None, b: None, pool: Vec::new(), diag: String::new(), free_place: false, poison: true, _m: PhantomData }
+        World { id, a0: None, a1: None, b: None, pool: Vec::new(), diag: String::new(), bad: [false; 3], free_place: false, poison: true, _m: PhantomData }
     }
 
     fn exec_inner(&mut self, r: &RStep, ev: &mut Vec<Ev>) {
@@ -1587,7 +1594,9 @@ where
                 Some(p) => {
                     let mut s = snapshot_of::<E, Tr, MA>(p.get_ref());
                     s.object_guards_ok = p.guards_ok();
-                    if poison {
+                    if !s.aligned {
+                        self.bad[slot] = true;
+                    } else if poison {
                         poison_spare::<E, Tr, MA>(p.get());
                     }
                     s
@@ -1598,7 +1607,9 @@ where
                 Some(p) => {
                     let mut s = snapshot_of::<E, Tr, MA>(p.get_ref());
                     s.object_guards_ok = p.guards_ok();
-                    if poison {
+                    if !s.aligned {
+                        self.bad[slot] = true;
+                    } else if poison {
                         poison_spare::<E, Tr, MA>(p.get());
                     }
                     s
@@ -1609,13 +1620,35 @@ where
                 Some(p) => {
                     let mut s = snapshot_of::<E, Tr, MB>(p.get_ref());
                     s.object_guards_ok = p.guards_ok();
-                    if poison {
+                    if !s.aligned {
+                        self.bad[slot] = true;
+                    } else if poison {
                         poison_spare::<E, Tr, MB>(p.get());
                     }
                     s
                 }
             },
         }
+    }
+    fn realign(&mut self, slot: usize) {
+        match slot {
+            0 => {
+                if let Some(p) = self.a0.as_mut() {
+                    fix_align::<E, Tr, MA>(p, 0, false);
+                }
+            }
+            1 => {
+                if let Some(p) = self.a1.as_mut() {
+                    fix_align::<E, Tr, MA>(p, 0, false);
+                }
+            }
+            _ => {
+                if let Some(p) = self.b.as_mut() {
+                    fix_align::<E, Tr, MB>(p, 0, false);
+                }
+            }
+        }
+        self.bad[slot] = false;
     }
     fn pool_tags(&self) -> Vec<u64> {
         self.pool.iter().map(|x| x.tag()).collect()
@@ -1624,6 +1657,17 @@ where
         std::mem::take(&mut self.diag)
     }
     fn teardown(&mut self) -> bool {
+        // vectors whose storage is misaligned are leaked, not dropped (see `bad`)
+        if self.bad[0] {
+            std::mem::forget(self.a0.take());
+        }
+        if self.bad[1] {
+            std::mem::forget(self.a1.take());
+        }
+        if self.bad[2] {
+            std::mem::forget(self.b.take());
+        }
+        self.bad = [false; 3];
         let r = catch_unwind(AssertUnwindSafe(|| {
             kill(&mut self.a0);
             kill(&mut self.a1);
